@@ -59,7 +59,11 @@ def generate(rng, tier, idx):
                  'affine': [rng.choice([[0.0, 1.0], [0.0, 1.0], [1.7e9, 3e3], [2e-9, 5e-10],
                                         [-40.0, 0.01], [5.0, 1000.0]]) for _ in range(d)]}
         zoo.with_index(table)
-        mapping = {'c%d' % j: {'__cls__': gmvlib.FAM['gaussian' if f == 'normal' else 'uniform']}
+        if d >= 3 and (idx % 3) == 0:
+            # a constant column next to dependent ones: its row and column of the correlation
+            # matrix are filled in by the library, the others must still be recovered
+            fam[(idx // 3) % d] = 'constant'
+        mapping = {'c%d' % j: {'__cls__': gmvlib.FAM['uniform' if f == 'uniform' else 'gaussian']}
                    for j, f in enumerate(fam)}
         config = {'form': 'dict', 'ctor': {'distribution': {'__map__': mapping}}}
     else:
@@ -278,8 +282,11 @@ def _check_recovery(ctx, run, model, train_df, R_true):
     if n < 1000:
         return
     ctx.stats['recovery_checks'] += 1
+    const = [str(m).startswith('constant') for m in run['table']['margs']]
     for a in range(d):
         for b in range(a + 1, d):
+            if const[a] or const[b]:
+                continue
             if abs(R_true[a, b]) > 0.9:
                 # on the atanh scale the plug-in transform's end-point effects blow up near
                 # |rho| = 1; "within sampling error" is gated for |rho| <= 0.9 only
@@ -296,6 +303,8 @@ def _check_recovery(ctx, run, model, train_df, R_true):
     grid = np.linspace(-4, 4, 401)
     affine = run['table'].get('affine') or [[0.0, 1.0]] * len(model.univariates)
     for j, (marg, uni) in enumerate(zip(run['table']['margs'], model.univariates)):
+        if str(marg).startswith('constant'):
+            continue
         if marg == 'normal':
             xs, G = grid, stats.norm.cdf(grid)
         else:
